@@ -29,7 +29,7 @@ EIdx(r, e) == CHOOSE i \in 1..Len(r.edges) : r.edges[i] = e
 NIdx(r, v) == CHOOSE i \in 1..Len(r.nodes) : r.nodes[i] = v
 
 ZeroScaled(r) == {t[1] : t \in {s \in ToSet(r.escale) : s[2] = 0}}
-UIgnored(r) == ToSet(r.ign) \cup ZeroScaled(r)     \* user-level ignored elements
+UIgnored(r) == ToSet(r.ign) \cup ZeroScaled(r) \cup PctIgnored(r)     \* user-level ignored elements (listed, zero-scaled, below the percentile)
 
 (* required edges of EG and their values *)
 Req(r) ==
